@@ -810,3 +810,15 @@ package rlwe
 //@   property C04
 //@   requires 0 - 1 <= level && level < len(p.pi)
 //@   ensures implies(level < 0, result == 0 - 1)
+
+// ---- partial traces of ONE term (property C11, "for every batch size and count they accept"): the sum of one
+// ---- rotated copy is the input itself, in the domain the input is in (finding F63: a coefficient-domain
+// ---- input was copied and then transformed "back")
+//@ afunc Evaluator.PartialTracesSum#one
+//@   property C11
+//@   case n == 1
+//@   case n == 1 ; alias opOut = ctIn
+//@   requires offset != 0 && len(ctIn.Value) == 2 && len(opOut.Value) == 2 && len(ctIn.Value[0].Coeffs) >= 1 && len(ctIn.Value[1].Coeffs) == len(ctIn.Value[0].Coeffs)
+//@   requires indom(ctIn.Value[0], ctIn.IsNTT) && indom(ctIn.Value[1], ctIn.IsNTT)
+//@   ensures isnil(err) && val(opOut.Value[0]) == old(val(ctIn.Value[0])) && val(opOut.Value[1]) == old(val(ctIn.Value[1]))
+//@   ensures iff(opOut.IsNTT, old(ctIn.IsNTT)) && indom(opOut.Value[0], opOut.IsNTT) && indom(opOut.Value[1], opOut.IsNTT)
